@@ -88,7 +88,7 @@ H("h_linear::lin_leq_views_pos_neg_change", "pumpkin-solver", "lin_leq", ALLO, "
 H("h_linear::lin_leq_views_2_m3", "pumpkin-solver", "lin_leq", ALLO, "thorough", LIN_LEQ + VIEW,
   "x1,x2: any interval with 1 hole; views 2*x1+o1, -3*x2+o2 (images fit i32); c",
   "n=2 AffineView terms (scales 2,-3), 1 hole, posting only, unwind 10", full_range=True,
-  covers=["propagation at posting with live witness"], timeout=2400)
+  covers=["propagation at posting with live witness"], timeout=3600, mem_gb=12)
 H("h_linear::lin_leq_ids_2_backtrack", "pumpkin-solver", "lin_leq", ALLO, "thorough", LIN_LEQ,
   "x1,x2 any interval; c; two symbolic changes, the first one undone by backtracking",
   "n=2, posting + change + backtrack (real synchronise of trailed state) + change, unwind 10",
@@ -294,7 +294,7 @@ for _n, _tier, _mem, _to in [
     ("cumulative_naive_1", "thorough", 40, 3600),
     ("cumulative_big_step_1", "thorough", 40, 3600),
     ("cumulative_big_step_1_holes", "thorough", 50, 3600),
-    ("cumulative_pointwise_2", "thorough", 40, 3600),
+    ("cumulative_pointwise_2", "thorough", 30, 3600),
 ]:
     _holes = _n.endswith("_holes")
     H("h_cumulative::" + _n, "pumpkin-solver", "cumulative", ["O1", "O2", "O3", "O4", "O7"], _tier,
@@ -449,7 +449,6 @@ UNREGISTERED = {
     "h_e2::e2_view_lower_bound_predicate": "as e2_div_floor (invert divides by the scale)",
     "h_e2::e2_view_upper_bound_predicate": "as e2_div_floor (invert divides by the scale)",
     "h_linear::lin_leq_ids_3_change": "no verdict after 2400 s (3.7 M variables, 21 M clauses)",
-    "h_linear::lin_leq_views_2_m3": "2224 s, then a failing run that was not triaged; not re-run",
     "h_linear::lin_ne_ids_3": "out of memory at 22 GB",
     "h_linear::lin_ne_views_pos_neg": "out of memory at 22 GB",
     "h_arith::min_as_negated_max_2": "not validated (maximum with 2 variables already needs 7.7 GB)",
@@ -469,7 +468,6 @@ UNREGISTERED = {
     "h_reified::reified_leq_2_backtrack": "out of memory at 22 GB",
     "h_reified::reified_ne_2_changes": "out of memory at 22 GB",
     "h_cumulative::cumulative_big_step_1_holes": "not validated (big_step_1 exceeds 28 GB)",
-    "h_cumulative::cumulative_pointwise_2": "not validated",
 }
 for _name in UNREGISTERED:
     HARNESSES.pop(_name, None)
